@@ -157,17 +157,19 @@ def jsonable(o):
     return o
 
 
-def run_yaml(case):
-    out = {}
+def make_areas(specs):
     areas = []
-    for s in case["areas"]:
+    for s in specs:
         crs = mk_crs_arg(s["crs"])
         h, w = s["shape"]
         ext = s["extent"]
         if s.get("np_extent"):
             ext = [np.float64(x) for x in ext]
-        a = AreaDefinition(s["id"], s["description"], "proj", crs, w, h, ext)
-        areas.append(a)
+        areas.append(AreaDefinition(s["id"], s["description"], "proj", crs, w, h, ext))
+    return areas
+
+
+def dump_facts(areas):
     facts = []
     for a in areas:
         f = {"to_epsg": a.crs.to_epsg()}
@@ -177,6 +179,56 @@ def run_yaml(case):
         f["entry"] = {"EPSG": f["to_epsg"]} if f["to_epsg"] is not None else jsonable(d)
         f.update({"loaded_" + k: v for k, v in crs_facts(f["entry"]).items()})
         facts.append(f)
+    return facts
+
+
+def load_result(fn):
+    """What a load returns, as data: the loaded areas, or the exception."""
+    try:
+        loaded = fn()
+        if not isinstance(loaded, list):
+            loaded = [loaded]
+        return {"loaded": [describe(b) for b in loaded]}
+    except Exception as e:
+        return {"error": {"exc": type(e).__name__, "msg": str(e)[:160]}}
+
+
+def run_history(case):
+    """A history of writes and loads on ONE file path in this process.  Every load through the path is recorded together
+    with a load of the file's current text through load_area_from_string (no path involved)."""
+    import pathlib
+    areas = make_areas(case["areas"])
+    out = {"facts": dump_facts(areas), "orig": [describe(a) for a in areas],
+           "parsed": jsonable([yaml.safe_load(a.dump()) for a in areas]), "steps": []}
+    with tempfile.TemporaryDirectory(dir=".") as td:
+        fn = os.path.join(td, case.get("filename", "areas.yaml"))
+        kind = case.get("path_kind", "str")
+        arg = pathlib.Path(fn) if kind == "pathlib" else [fn] if kind == "list" else fn
+        for st in case["steps"]:
+            if st["op"] == "dump":
+                areas[st["k"]].dump(pathlib.Path(fn) if st.get("pathlib") else fn)       # appends
+                out["steps"].append(None)
+            elif st["op"] == "overwrite":
+                with open(fn, "w") as fh:
+                    fh.write("".join(areas[k].dump() for k in st["ks"]))
+                out["steps"].append(None)
+            elif st["op"] == "remove":
+                os.remove(fn)
+                out["steps"].append(None)
+            else:
+                regions = st.get("regions") or []
+                entry = ac.parse_area_file if st.get("via") == "parse_area_file" else load_area
+                r = {"path": load_result(lambda: entry(arg, *regions))}
+                text = open(fn).read() if os.path.exists(fn) else None
+                r["fresh"] = load_result(lambda: load_area_from_string(text, *regions)) if text is not None else None
+                out["steps"].append(r)
+    return out
+
+
+def run_yaml(case):
+    out = {}
+    areas = make_areas(case["areas"])
+    facts = dump_facts(areas)
     out["facts"] = facts
     out["orig"] = [describe(a) for a in areas]
     mode = case["mode"]
@@ -283,4 +335,5 @@ for case in req.get("create", []):
     res.append(r)
 out["create"] = res
 out["yaml"] = [run_yaml(c) for c in req.get("yaml", [])]
+out["history"] = [run_history(c) for c in req.get("history", [])]
 json.dump(out, sys.stdout)
